@@ -3,7 +3,9 @@ package PKGNAME
 import (
 	"bytes"
 
+	"github.com/33cn/chain33/client"
 	"github.com/33cn/chain33/queue"
+	drivers "github.com/33cn/chain33/system/dapp"
 	"github.com/33cn/chain33/types"
 )
 
@@ -196,3 +198,57 @@ func verifC12_localkey() {
 	}()
 	verifAssert("C12/checkprefix-agrees", accepted == ok)
 }
+
+// ---- state-key write permission (isAllowKeyWrite) ----
+
+// every other executor declines to be a friend (engine-only stub of loadDriver returns it)
+type verifC12Driver struct{ drivers.Driver }
+
+func (verifC12Driver) IsFriend(selfexec []byte, writekey []byte, othertx *types.Transaction) bool {
+	return false
+}
+
+func verifC12LoadDriver(e *executor, tx *types.Transaction, index int) drivers.Driver {
+	return verifC12Driver{}
+}
+
+// verifC12_statekey: with no friend relation, a transaction of executor X may write a state
+// key only inside X's own namespace (mavl-X-...) or inside the area other executors reserve
+// for X's address (mavl-<any>-exec-<address of X>:...).
+func verifC12_statekey() {
+	para := verifChoose("parachain", 2) == 1
+	title := "verif"
+	if para {
+		title = "user.p.v."
+	}
+	cfg := types.VerifNewConfigForks(title, types.DefaultCoinPrecision, nil, map[string]int64{"ForkExecKey": 0})
+	e := &executor{api: &verifAPI12{cfg: cfg}, cfg: cfg, height: 10, driverCache: map[string]drivers.Driver{}}
+	execer := [][]byte{[]byte("ab"), []byte("a"), []byte("user.p.v.ab"), []byte("user.p.w.ab")}[verifChoose("tx.execer", 4)]
+	tx := &types.Transaction{Execer: execer}
+	// key = "mavl-" + <symbolic name over a small alphabet> + "-" + rest
+	n := 1 + verifChoose("key.exec.len", verifParam("namelen", 3))
+	name := verifBytes("key.exec", n)
+	for _, c := range name {
+		verifAssume(c == 'a' || c == 'b' || c == '.' || c == '-')
+	}
+	rest := [][]byte{[]byte("x"), []byte("exec-" + drivers.ExecAddress(string(execer)) + ":y"), []byte("exec-" + drivers.ExecAddress("other") + ":y")}[verifChoose("key.rest", 3)]
+	key := append(append(append([]byte("mavl-"), name...), '-'), rest...)
+	allowed := isAllowKeyWrite(e, key, types.GetRealExecName(execer), tx, 0)
+	keyExecer, err := types.FindExecer(key)
+	own := err == nil && bytes.Equal(keyExecer, cfg.GetParaExec(execer))
+	addr, ok := types.GetExecKey(key)
+	reserved := ok && addr == drivers.ExecAddress(string(execer))
+	if allowed {
+		verifAssert("C12/state-write-only-in-own-namespace-or-reserved-area", own || reserved)
+	} else {
+		verifAssert("C12/own-namespace-always-writable", !own && !reserved)
+	}
+	verifObserve("allowed", allowed)
+}
+
+type verifAPI12 struct {
+	client.QueueProtocolAPI
+	cfg *types.Chain33Config
+}
+
+func (a *verifAPI12) GetConfig() *types.Chain33Config { return a.cfg }
